@@ -40,15 +40,13 @@ Definition mem (x : N) (l : list N) : bool := existsb (N.eqb x) l.
 Definition keeps (K : list N) (ev : N) (has_ret : bool) : bool :=
   mem ev K || (has_ret && N.eqb ev (ev_code E_after_stmt) && mem (ev_code E_after_module_stmt) K).
 
-(* guard names are id()s of throw-away copies: a kept site's `guard=` keyword is replaced by None *)
-Definition norm_kw (kw : tree) : tree :=
-  match kw with
-  | T k [SId x] [[_]] => if N.eqb k kkeyword && N.eqb x id_guard_kw then T k [SId x] [[none_const]] else kw
-  | _ => kw
-  end.
+(* guard names are id()s of throw-away copies, and the `guard=` keyword is only passed when global guards are enabled:
+   a kept site's `guard=` keyword is dropped *)
+Definition is_guard_kw (kw : tree) : bool :=
+  match kw with T k [SId x] [[_]] => N.eqb k kkeyword && N.eqb x id_guard_kw | _ => false end.
 Definition norm_emit (t : tree) : tree :=
   match t with
-  | T k [] [[f]; args; kws] => T k [] [[f]; args; map norm_kw kws]
+  | T k [] [[f]; args; kws] => T k [] [[f]; args; filter (fun kw => negb (is_guard_kw kw)) kws]
   | _ => t
   end.
 
